@@ -85,7 +85,7 @@ Proof. exact msgq_get_leaves_writer_refuted. Qed.
 Print Assumptions msgq_get_leaves_writer_pinned_refuted.
 Example msgq_waitinv_nonvacuous : AllInv (msgq_init 1) /\ WaitInv (msgq_init 1) /\
   exists q res, msgq_get_witness true = Some (q, res) /\ mq_putq q = [] /\ mq_len q = 1.
-Proof. split; [apply msgq_init_inv|]. split; [intros H; exfalso; apply H; reflexivity|exact msgq_get_admits_writer_on_witness]. Qed.
+Proof. split; [apply msgq_init_inv|]. split; [intros H; exfalso; apply H; reflexivity|exact msgq_get_takes_writer_on_witness]. Qed.
 
 (* non-vacuity: reachable non-trivial states satisfy the invariants *)
 Example lmq_inv_nonvacuous : exists q, lmq_run true (mkLmq 2 0 1 0 0 0 [0;0]%N) [LResize 5 false; LPut 1%N; LPut 2%N; LGet] = Some (fst (fifo_run (2, []) [LResize 5 false; LPut 1%N; LPut 2%N; LGet]), q) /\ LInv q /\ q_len q = 1.
